@@ -1287,6 +1287,8 @@ pub fn run(r: &Run) {
     r.prop("crud", r.tier.pick(40_000, 1_000_000), || arb_crud_case(r.tier.pick(25, 60)), check_crud);
     r.assume(GLUE_RULE);
     r.prop("export-glue", r.tier.pick(4_000, 40_000), arb_glue_case, check_glue);
+    r.assume(super::c14p::RULE);
+    r.prop("policy-users", r.tier.pick(60_000, 1_500_000), super::c14p::arb_case, super::c14p::check);
     // the one condition whose outcome depends on a table outside the route: "a statement applies when all its conditions hold"
     // where the export path of a live session evaluates it (shared with C12)
     r.assume(crate::props::rpkiexp::RULE);
@@ -1300,6 +1302,9 @@ pub fn replay(sub: &str, case: &Value) -> Result<CheckResult, String> {
     }
     if sub == "export-glue" {
         return Ok(check_glue(&decode_case(case)?));
+    }
+    if sub == "policy-users" {
+        return super::c14p::replay(case);
     }
     if sub == "export-rpki" {
         return crate::props::rpkiexp::replay(case);
